@@ -64,7 +64,7 @@ fn check_tuple(run: &Run, w: bool, rem: u64, inc: u64, mtg: Option<u32>, oh: u64
 pub fn run(run: &Run) -> (u64, u64) {
     let rems = remaining_grid(run.quick());
     let incs = [0u64, 1, 10, 100, 1000, 10_000, 60_000];
-    let mtgs = [None, Some(1u32), Some(2), Some(5), Some(40), Some(200)];
+    let mtgs = [None, Some(1u32), Some(2), Some(5), Some(40), Some(200), Some(65_535), Some(u32::MAX)];
     let ohs = [0u64, 1, 10, 100, 1000];
     let n = AtomicU64::new(0);
     par_for(rems.len(), |i| {
@@ -115,7 +115,7 @@ pub fn via_go(run: &'static Run) -> (u64, u64) {
     use crate::ucidrv::{Drv, Wait};
     let rems: Vec<u64> = if run.quick() { vec![1, 2, 10, 57, 100, 200, 999, 1000, 5000, 30_000, 60_000, 600_000, 3_600_000] } else { remaining_grid(true).into_iter().step_by(9).collect() };
     let incs = [0u64, 100, 5000];
-    let mtgs = [None, Some(1u32), Some(3), Some(40)];
+    let mtgs = [None, Some(1u32), Some(3), Some(40), Some(u32::MAX)];
     let ohs = [0u64, 10, 1000];
     let n: &'static AtomicU64 = Box::leak(Box::new(AtomicU64::new(0)));
     let items: Vec<(u64, u64)> = rems.iter().flat_map(|r| ohs.iter().filter(move |o| **o <= r / 2).map(move |o| (*r, *o))).collect();
@@ -287,7 +287,7 @@ pub fn via_go(run: &'static Run) -> (u64, u64) {
         });
     }
     let a = n.load(Ordering::Relaxed);
-    run.family("CLOCK-VIA-GO", &format!("remaining {:?} ms x overhead {{0,10,1000}} (<= remaining/2, set through setoption) x side to move x increment {{0,100,5000}} x movestogo {{none,1,3,40}} x other side's clock {{absent, huge, tiny}}: sent as `go wtime .. btime .. depth 1` to the real command loop; limits read through hook H5; plus one situation phrased in all 720 orders of its six fields, with single and double blanks, for both sides", rems), a, a, true, "");
+    run.family("CLOCK-VIA-GO", &format!("remaining {:?} ms x overhead {{0,10,1000}} (<= remaining/2, set through setoption) x side to move x increment {{0,100,5000}} x movestogo {{none,1,3,40,4294967295}} x other side's clock {{absent, huge, tiny}}: sent as `go wtime .. btime .. depth 1` to the real command loop; limits read through hook H5; plus one situation phrased in all 720 orders of its six fields, with single and double blanks, for both sides", rems), a, a, true, "");
     (a, a)
 }
 
